@@ -12,15 +12,18 @@ CFG = {
              "(callable then scripts calling resolve/reject 0..3 times and/or throwing; throwing then-getter; non-callable then), "
              "ops = new / resolve / reject through a pair (any number of times; value = int, promise, thenable, the promise itself) / "
              "then with optional handlers (handler = log, 0..2 resolver calls, then return int | return arg | throw | return promise | "
-             "return thenable | interrupt; .catch sugar) / finally(script) / async functions (0..3 awaits of int, promise, thenable, "
+             "return thenable | interrupt; .catch sugar; ~10% of handlers are NATIVE Go functions whose resolver calls go through an "
+             "outermost entry point of the Runtime: NewPromise resolver / Callable / RunString) / finally(script) / async functions (0..3 awaits of int, promise, thenable, "
              "then return int | promise | thenable or throw, optional try/catch) / all, allSettled, race, any over promises, ints "
              "and thenables; 20% of cases are 'tick races' (then-chains of length 2..4 shuffled with async functions awaiting or "
-             "returning an already settled promise, a logging then on every async result, finally); split into 1..3 runs, "
+             "returning an already settled promise, a logging then on every async result, finally); 15% are 'native re-entry' cases (several reactions of one promise, one of them native and "
+             "settling other promises, drained by a Go-side resolver call, i.e. from an empty call stack); split into 1..3 runs, "
              "with Go-side NewPromise()/resolver calls as runs of their own; non-trivial = at least two log entries and one of "
              "(resolution with promise/thenable, handler returning promise/thenable, combinator, several runs, repeated resolver "
              "call, async function, finally); distinct = by hash of the case"),
     "theorem_names": ["promise_refines", "each_reaction_once", "queue_empty_on_return", "interrupt_discards",
-                      "settle_once", "latched_pair_is_noop", "tracker_language", "reaction_record_jobbed_once", "fuel_irrelevant"],
+                      "settle_once", "latched_pair_is_noop", "tracker_language", "reaction_record_jobbed_once", "fuel_irrelevant", "nested_leave_returns_at_once",
+                      "old_reentrant_drain_breaks_fifo"],
     "allowed_axioms": [],
     "trusted_base": [
         "Coq 8.16.1 kernel + vm_compute (no native_compute); theorems closed under the global context (no axioms)",
@@ -45,7 +48,8 @@ CFG = {
                  "resolving-function pairs with the alreadyResolved latch, thenable jobs, reaction jobs, all/allSettled/race/any, finally, "
                  "async functions (asyncRunner.start/step/onFulfilled/onRejected = AsyncFunctionStart/Await: await = PromiseResolve + "
                  "PerformPromiseThen without capability, return through the capability's resolve function), the "
-                 "double-buffered drain loop of Runtime.leave and leaveAbrupt) is proved, for every program, every split into runs and "
+                 "double-buffered drain loop of Runtime.leave with its draining flag (a nested leave() reached from a native handler returns at "
+                 "once; the re-entrant loop before f7b1efa is shown NOT to refine the FIFO queue) and leaveAbrupt) is proved, for every program, every split into runs and "
                  "every fuel, to produce exactly the state (event log, tracker log, promise states) of ECMA-262 27.2 over a plain FIFO "
                  "queue; every enqueued job gets a unique id and is executed at most once, executed + discarded = enqueued, the queue is "
                  "empty at every return, jobs discarded by an interrupt never run, a promise is settled at most once (latch invariant), "
